@@ -669,6 +669,19 @@ func (g *Gen) ret(r *ssa.Return) {
 		}
 	}
 	g.frameObligations(r, detail)
+	// restores: the named ghost heaps are back to their entry value
+	for _, cl := range g.ctr.Clauses {
+		if cl.Kind != "restores" || !cl.visible(g.prop) {
+			continue
+		}
+		for _, n := range cl.Names {
+			h, _, _ := g.ghostHeap(n)
+			if h == "" {
+				panic(fmt.Errorf("%s: restores: %s is not a ghost field", cl.Pos, n))
+			}
+			g.oblige("restore", detail, n, cl.Props, false, eq(g.heap(h), g.heapIn(g.entry[-1], h)), r.Pos())
+		}
+	}
 }
 
 // retLabel names a return site by the normalised source text of the return
